@@ -14,7 +14,7 @@ WT=/tmp/confirm-wt
 exec 9>/tmp/confirm-wt.lock; flock 9
 export CARGO_NET_OFFLINE=true CARGO_BUILD_JOBS=${CARGO_BUILD_JOBS:-14}; unset RUSTFLAGS
 if [ ! -e $WT/.git ]; then git -C /repo worktree add --detach $WT HEAD >/dev/null 2>&1 || { echo "worktree failed"; exit 2; }; fi
-cd $WT && git checkout -q --detach "${BASE:-$(git -C /repo rev-parse HEAD)}" && git reset -q --hard && git clean -qfd -e target -e .suite-out
+cd $WT && git reset -q --hard && git checkout -q --detach "${BASE:-$(git -C /repo rev-parse HEAD)}" && git reset -q --hard && git clean -qfd -e target -e .suite-out
 echo "# confirm_union[$LABEL] $(date -u +%H:%M) HEAD=$(git rev-parse --short HEAD) seeds: $*" >> "$OUT"
 name() { echo "seeded_demo_$(echo "$1" | tr -- '-.' '__' | tr 'A-Z' 'a-z')"; }
 pfile() { [ -f /tmp/seeded-out/$1/patch_28e08dc8.diff ] && echo /tmp/seeded-out/$1/patch_28e08dc8.diff || echo /tmp/seeded-out/$1/patch.diff; }
